@@ -99,10 +99,12 @@ impl<S: BitmapSlice + Send + Sync> PassthroughFs<S> {
             Fn(PT, 'impl<S: BitmapSlice + Send + Sync> PassthroughFs<S>', 'create_file_excl',
                sig_subst=[('dir: &impl AsRawFd', 'dir: &File')], ret_name='res',
                # the one open that may CREATE: always with O_EXCL, so that a symlink in the last component is never followed (open(2): O_CREAT|O_EXCL
-               # does not follow symbolic links) and an existing object is never opened or truncated through it
-               requires=['forall|f: i32| (f & 0o100i32 != 0 && f & 0o200i32 != 0 && f & flags == flags) ==> #[trigger] openat_ok(f) // [C06.safeopen.create_excl] a creating open is granted only with O_CREAT|O_EXCL (plus the requested flags)'],
+               # does not follow symbolic links) and an existing object is never opened or truncated through it.  open(2) also says: "When O_PATH is
+               # specified in flags, flag bits other than O_CLOEXEC, O_DIRECTORY, and O_NOFOLLOW are ignored" - the CLIENT chooses `flags`, so the grant
+               # excludes O_PATH without O_NOFOLLOW (finding D28: the first version of this grant did not, and the code relied on O_EXCL alone)
+               requires=['forall|f: i32| (f & 0o100i32 != 0 && f & 0o200i32 != 0 && (f & 0o400000i32 != 0 || f & 0o10000000i32 == 0) && f & flags == flags) ==> #[trigger] openat_ok(f) // [C06.safeopen.create_excl] a creating open is granted only with O_CREAT|O_EXCL (plus the requested flags) - and, as the kernel IGNORES both under O_PATH, only with O_NOFOLLOW or without O_PATH'],
                ensures=['res is Ok && res->Ok_0 is None ==> flags & 0o200i32 == 0 // [C06.safeopen.create_excl.fallback] "exists" is swallowed only when the client did not ask for O_EXCL'],
-               splices=[('^', 'after', 'proof { assert(forall|f: i32| #![auto] (f | 0o100i32 | 0o200i32) & 0o100i32 != 0 && (f | 0o100i32 | 0o200i32) & 0o200i32 != 0 && (f | 0o100i32 | 0o200i32) & f == f) by (bit_vector); }')],
+               splices=[('^', 'after', 'proof { assert(forall|f: i32| #![auto] (f | 0o100i32 | 0o200i32) & 0o100i32 != 0 && (f | 0o100i32 | 0o200i32) & 0o200i32 != 0 && (f | 0o100i32 | 0o200i32) & f == f) by (bit_vector); assert(forall|f: i32| #![auto] (f | 0o100i32 | 0o200i32 | 0o400000i32) & 0o100i32 != 0 && (f | 0o100i32 | 0o200i32 | 0o400000i32) & 0o200i32 != 0 && (f | 0o100i32 | 0o200i32 | 0o400000i32) & 0o400000i32 != 0 && (f | 0o100i32 | 0o200i32 | 0o400000i32) & f == f) by (bit_vector); }')],
                props=['C06'], canary=True),
             Fn(PT, 'impl<S: BitmapSlice + Send + Sync> PassthroughFs<S>', 'open_file_and_handle',
                sig_subst=[('dir: &impl AsRawFd', 'dir: &File')],
